@@ -112,6 +112,12 @@ def stripCR (line : Bytes) : Bytes :=
   | some 13 => line.dropLast
   | _ => line
 
+/-- is the last byte SP or HTAB? -/
+def wsLast (k : Bytes) : Bool :=
+  match k.getLast? with
+  | some c => c == 32 || c == 9
+  | none => false
+
 /-- the header-line loop of `fromWireFormat` (all lines after the first): headers so far, Host count -/
 def parseHeaderLines : List Bytes → Headers → Nat → Except ParseErr (Headers × Nat)
   | [], h, n => .ok (h, n)
@@ -125,9 +131,13 @@ def parseHeaderLines : List Bytes → Headers → Nat → Except ParseErr (Heade
         match splitFirst 58 line with
         | none => parseHeaderLines ls h n
         | some (k, v) =>
-          let name := trim k
-          let n' := if ciEq name (ascii "Host") then n + 1 else n
-          parseHeaderLines ls (addOrCombine h name (trim v)) n'
+          -- `colonPos > 0 && (line[colonPos - 1] == ' ' || line[colonPos - 1] == '\t')`: whitespace between field name and colon
+          -- (RFC 9112 §5.1) is a 400 — if the translator found that test (FC15d), otherwise the name is trimmed and accepted
+          if Gen.HttpRespond.rejectWsBeforeColon && wsLast k then .error (.request Gen.HttpRespond.stWsBeforeColon)
+          else
+            let name := trim k
+            let n' := if ciEq name (ascii "Host") then n + 1 else n
+            parseHeaderLines ls (addOrCombine h name (trim v)) n'
 
 /-- mirrors `HttpRequest::fromWireFormat` -/
 def fromWireFormat (data : Bytes) : Except ParseErr ParsedReq :=
@@ -378,16 +388,24 @@ structure SessionInfo where
 structure Env where
   /-- `_shutdown.load()` at entry -/
   shutdownAtEntry : Bool := false
-  /-- `_transport != nullptr` in the shutdown arm -/
+  /-- `_transport != nullptr` in the shutdown arm's send section -/
   transportAtEntry : Bool := true
-  /-- `_transport && !_shutdown` under `_mutex` in the send block (normal, upgrade and error arm) -/
+  /-- `_transport != nullptr` in the shutdown arm's second `_mutex` section (the close): `stop()` may reset the transport
+      between the two sections -/
+  transportAtShutdownClose : Bool := true
+  /-- `_transport && !_shutdown && sameTransport()` under `_mutex` in the send block (normal, upgrade and error arm); since
+      FC16e the guard also requires that `_transport` is still the transport the request arrived on (`Model/HttpRespondRestart`
+      is the model of that third conjunct across `stop()` / `start()`) -/
   upAtSend : Bool := true
   /-- the engine accepted the Send command (the synchronous `sendAsync` completion reported ok) -/
   enqueueOk : Bool := true
-  /-- `_transport && !_shutdown` under `_mutex` in the close block -/
+  /-- the same guard under `_mutex` in the close block (and `closeSession`'s `_transport && !_shutdown` in the upgrade drain) -/
   upAtClose : Bool := true
   /-- `_sessionInfo.find(sid)` when the Connection decision is taken -/
   sess : Option SessionInfo := some {}
+  /-- upgrade arm: the session's read buffer holds bytes behind the upgrade request (`!it->second.buffer.empty()`), so the
+      arm feeds them to `onUpgradedData` on the worker thread -/
+  bufferedAtUpgrade : Bool := false
 
 def Env.up : Env := {}
 
@@ -399,12 +417,15 @@ structure Server where
   upgradeHook : Req → Seam (Option Resp) := fun _ => .ret none
   /-- `onResponseSuppressed` (virtual) -/
   suppressHook : Req → Resp → Seam Bool := fun _ _ => .ret false
+  /-- `onUpgradedData` (virtual) as called by the buffer drain of the upgrade arm: returns, or throws (WebSocketServer reaches
+      the user's message callback from here) -/
+  drainHook : Seam Unit := .ret ()
 
 /-- what one call of `processHttpRequest` hands to the engine -/
 inductive Outcome where
   /-- one Send command carrying `wire`; `closeAfter` = a Close command follows -/
   | respond (wire : Bytes) (closeAfter : Bool)
-  /-- the engine refused the Send command; `closed` = a Close command was issued -/
+  /-- no Send command reached the engine (it refused it, or the upgrade arm skipped it); `closed` = a Close command was issued -/
   | sendFailed (closed : Bool)
   /-- the handler (or the subclass seam) took over the connection: nothing is sent -/
   | suppressed
@@ -560,6 +581,19 @@ def errorArm (env : Env) (status : Nat) : List Call :=
 def seamThrew (env : Env) (std : Bool) : List Call :=
   if std || Gen.HttpRespond.errCatchesAll then errorArm env Gen.HttpRespond.errDefaultStatus else []
 
+/-- the buffer drain of the upgrade arm, AFTER the upgrade response was handed to the transport: bytes that arrived behind the
+    upgrade request go to `onUpgradedData`.  Repaired code (`upgradeDrainGuarded`): the call has its own `catch (...)` that ends
+    the connection through `closeSession` (guard `_transport && !_shutdown`) — no second response.  Unrepaired code: the throw
+    reaches the function's error arm, which sends a 500 behind the 101. -/
+def drainCalls (srv : Server) (env : Env) : List Call :=
+  if !env.bufferedAtUpgrade then []
+  else
+    match srv.drainHook with
+    | .ret _ => []
+    | .threw std =>
+      if Gen.HttpRespond.upgradeDrainGuarded then (if env.upAtClose then [.close] else [])
+      else seamThrew env std
+
 /-- the normal send block: guarded Send; Close if the completion reported failure or the response asked for close -/
 def normalSend (env : Env) (wire : Bytes) (shouldClose : Bool) : List Call :=
   if !env.upAtSend then []
@@ -569,8 +603,9 @@ def normalSend (env : Env) (wire : Bytes) (shouldClose : Bool) : List Call :=
     it returned through the suppression exit -/
 def processCalls (srv : Server) (env : Env) (data : Bytes) : List Call × Bool :=
   if env.shutdownAtEntry then
-    -- shutdown arm: both blocks test `_transport` only; the Close does not depend on the Send's completion
-    (if env.transportAtEntry then [.sendAsync shutdownWire, .close] else [], false)
+    -- shutdown arm: both blocks test `_transport` only (each in its own `_mutex` section); the Close does not depend on
+    -- the Send's completion
+    (if env.transportAtEntry then .sendAsync shutdownWire :: (if env.transportAtShutdownClose then [.close] else []) else [], false)
   else
     match fromWireFormat data with
     | .error e =>
@@ -584,10 +619,10 @@ def processCalls (srv : Server) (env : Env) (data : Bytes) : List Call × Bool :
       match upgraded with
       | .threw std => (seamThrew env std, false)
       | .ret (some ures) =>
-        -- the completion lambda of this send ignores the result; no close on this path
-        (if !env.upAtSend then []
-         else [.sendAsync (toWire ures.status (statusText ures.status)
-                 (hSet ures.headers (ascii "Server") (ascii Gen.HttpRespond.serverHeader)) ures.body)], false)
+        -- the completion lambda of this send ignores the result; a close on this path only from the buffer drain
+        ((if !env.upAtSend then []
+          else [.sendAsync (toWire ures.status (statusText ures.status)
+                  (hSet ures.headers (ascii "Server") (ascii Gen.HttpRespond.serverHeader)) ures.body)]) ++ drainCalls srv env, false)
       | .ret none =>
         let d := classifyRequest srv.routes srv.defaultHandler req0.method req0.path (splitPath req0.path)
         let req := applyDecision req0 d
@@ -606,6 +641,7 @@ def processCalls (srv : Server) (env : Env) (data : Bytes) : List Call × Bool :
 def outcomeOf (env : Env) (t : List Call × Bool) : Outcome :=
   match t.1 with
   | [] => if t.2 then .suppressed else .nothing
+  | [.close] => .sendFailed true      -- no Send command, one Close (upgrade arm: transport down at the send, drain hook threw)
   | [.sendAsync w] => if env.enqueueOk then .respond w false else .sendFailed false
   | [.sendAsync w, .close] => if env.enqueueOk then .respond w true else .sendFailed true
   | _ => .nothing     -- never happens: `processCalls_shape`
@@ -640,7 +676,13 @@ def Outcome.cmds : Outcome → List Cmd
   | .suppressed => []
   | .nothing => []
 
-/-- pool overflow: `sendErrorResponse` sends and closes inside one `_mutex` section -/
+/-- mirrors `sendErrorResponse(sid, 503, …)` as called by `handleIncomingData` on pool overflow: under `_mutex`, guard
+    `_transport && !_shutdown`; the completion lambda of its `sendAsync` closes the session whatever the completion says
+    ("Always close the connection after sending error response"), inside the same `_mutex` section -/
+def overflowCalls (env : Env) : List Call :=
+  if !env.upAtSend then [] else [.sendAsync overflowWire, .close]
+
+/-- pool overflow on a running server: `sendErrorResponse` sends and closes inside one `_mutex` section -/
 def overflowCmds : List Cmd := [.send overflowWire, .close]
 
 end Iora.HttpRespond
